@@ -36,6 +36,11 @@ ExprUnaryCases ==
             Case("binOfUnL", "binOfUnL:" \o o \o ":" \o u, f, InDecl(Bin(o, Un(u, a), b))),
             Case("binOfUnR", "binOfUnR:" \o o \o ":" \o u, f, InDecl(Bin(o, a, Un(u, b)))) } : u \in Uns, o \in Ops, f \in BOOLEAN }
   \cup { Case("unUn", "unUn:" \o u1 \o ":" \o u2, f, InDecl(Un(u1, Un(u2, a)))) : u1 \in Uns, u2 \in Uns, f \in BOOLEAN }
+  (* the same with LITERAL operands: a prefix operator directly in front of a literal must bind as in front of a name *)
+  \cup UNION { { Case("unOfBinLit", "unOfBinLit:" \o u \o ":" \o o, f, InDecl(Un(u, Bin(o, two, one)))),
+                 Case("binOfUnLLit", "binOfUnLLit:" \o o \o ":" \o u, f, InDecl(Bin(o, Un(u, two), one))),
+                 Case("binOfUnRLit", "binOfUnRLit:" \o o \o ":" \o u, f, InDecl(Bin(o, two, Un(u, Lit("2.5"))))) } : u \in Uns, o \in Ops, f \in BOOLEAN }
+  \cup { Case("unLit@stmt", "unLit@stmt:" \o u \o ":" \o o, FALSE, InStmt(Un(u, Bin(o, two, a)))) : u \in Uns, o \in Ops }
 ExprPostfixCases ==
   UNION { { Case("binOfPostfix", "binOfPostfix:" \o o, f, InDecl(Bin(o, Call("f", <<a, one>>), Idx("v", <<b>>)))),
             Case("argOfCall", "argOfCall:" \o o, f, InDecl(Call("f", <<Bin(o, a, b), c>>))),
